@@ -140,3 +140,91 @@ def write_config(d, path):
     with open(path, "w") as f:
         json.dump(d, f, indent=1, sort_keys=True)
     return path
+
+
+# ------------------------------------------------------------------------------------------------- documented option values
+def documented_domains(repo=REPO):
+    """option name -> list of documented values, from the tables of docs/configuring_*.rst
+    (| |option| | |values_x| | default | ...  with the substitutions defined in the same file, or inline :code: values)"""
+    import re
+
+    dom = {}
+    for path in sorted(glob.glob(os.path.join(repo, "docs", "configuring_*.rst"))):
+        text = open(path, encoding="utf-8").read()
+        subs = {}
+        for m in re.finditer(r"^\.\. \|([^|]+)\| replace::\s*\n((?:[ \t]+.*\n?)+)", text, re.M):
+            subs[m.group(1)] = m.group(2)
+
+        def codes(cell):
+            cell = cell.strip()
+            out = []
+            for part in re.findall(r"\|([^|]+)\|", cell) or []:
+                if part in subs:
+                    out += re.findall(r":code:`([^`]*)`", subs[part])
+            out += re.findall(r":code:`([^`]*)`", cell)
+            return out
+
+        for line in text.split("\n"):
+            if not line.startswith("|") or line.count("|") < 4:
+                continue
+            cells = line.strip().strip("|").split("|")
+            # split on the column separators only: substitutions contain '|' too, so re-split on ' | ' boundaries
+            cells = re.split(r"\s\|\s", " " + line.strip()[1:-1] + " ")
+            if len(cells) < 3:
+                continue
+            names = codes(cells[0])
+            vals = codes(cells[1])
+            if len(names) != 1 or not vals:
+                continue
+            name = names[0]
+            if not re.match(r"^[a-z_]+$", name):
+                continue
+            cur = dom.setdefault(name, [])
+            for v in vals:
+                if v not in cur:
+                    cur.append(v)
+    return dom
+
+
+def _pyval(v):
+    return v
+
+
+def _canon(v):
+    return {"True": "yes", "False": "no"}.get(str(v), str(v))
+
+
+_NOT_SCALAR = {"exceptions", "patterns", "standard", "token_after_library_clause", "token_if_no_matching_library_clause", "phase", "severity", "disable", "fixable",
+               "indent_style", "indent_size"}
+
+
+def docval_config(table, k, base=None, flip=False):
+    """every option with a documented finite domain gets - on every rule that has the option - its k-th documented value,
+    values that no unit test of the rule uses first (k >= 1); on top of `base` (a sweep configuration) if given"""
+    dom = documented_domains()
+    rules = {}
+    tested = {}      # attribute -> values some unit test (of any rule) uses
+    for rid in table:
+        for s in table[rid]["settings"]:
+            for a, v in s.items():
+                tested.setdefault(a, set()).add(_canon(v))
+    for rid in sorted(table):
+        at = table[rid].get("attrs", [])
+        s = dict((base or {}).get("rule", {}).get(rid, {}))
+        for a in at:
+            if a in dom and a not in _NOT_SCALAR:
+                import re as _re
+
+                vals = [v for v in dom[a] if _re.match(r"^[a-z_0-9]+$", v)]
+                order = [v for v in vals if v not in tested.get(a, set())] + [v for v in vals if v in tested.get(a, set())]
+                if order:
+                    nun = len([v for v in vals if v not in tested.get(a, set())])
+                    # flip: the options that have no untested value take their NEXT value, so that an untested value of one
+                    # option meets both values of its companions (docval1: blank_line_ends_group yes, docval1f: no)
+                    j = (k - 1) if (not flip or k <= nun) else k
+                    s[a] = _pyval(order[j % len(order)])
+        if s:
+            if table[rid]["disabled_by_default"]:
+                s["disable"] = False
+            rules[rid] = s
+    return {"rule": rules}, set(rules)
